@@ -528,6 +528,22 @@ func (w *Writer) ForceSeal() (uint64, error) {
 		return w.writer.indexStart, nil
 	}
 
+	// Save any state we may need to rollback, as Append does: if we fail to
+	// write out the index the segment must not look sealed (with an index that
+	// is not on disk) to a later attempt.
+	sealed := false
+	beforeBuf := w.writer.commitBuf
+	beforeCRC := w.writer.crc
+	beforeWriteOffset := w.writer.writeOffset
+	defer func() {
+		if !sealed {
+			w.writer.commitBuf = beforeBuf
+			w.writer.crc = beforeCRC
+			w.writer.indexStart = 0
+			w.writer.writeOffset = beforeWriteOffset
+		}
+	}()
+
 	// Seal the segment! We seal it by writing an index frame before we commit.
 	if err := w.appendIndex(); err != nil {
 		return 0, err
@@ -538,6 +554,7 @@ func (w *Writer) ForceSeal() (uint64, error) {
 		return 0, err
 	}
 
+	sealed = true
 	return w.writer.indexStart, nil
 }
 
